@@ -131,8 +131,25 @@ class _CtxBase:
         return self.or_(self.not_(a), b)
 
 
+import ast as _ast
+
+_OPS = {"add": _ast.Add(), "sub": _ast.Sub(), "mul": _ast.Mult(), "floordiv": _ast.FloorDiv(), "mod": _ast.Mod(), "pow": _ast.Pow()}
+_CMP = {"lt": _ast.Lt(), "le": _ast.LtE(), "gt": _ast.Gt(), "ge": _ast.GtE()}
+
+
 class SymCtx(_CtxBase):
     symbolic = True
+
+    # arithmetic / order on possibly symbolic scalars (contract expressions)
+    def add(self, a, b): return M.binop(self.it, _OPS["add"], a, b) if (isinstance(a, Sym) or isinstance(b, Sym)) else a + b
+    def sub(self, a, b): return M.binop(self.it, _OPS["sub"], a, b) if (isinstance(a, Sym) or isinstance(b, Sym)) else a - b
+    def mul(self, a, b): return M.binop(self.it, _OPS["mul"], a, b) if (isinstance(a, Sym) or isinstance(b, Sym)) else a * b
+    def floordiv(self, a, b): return M.binop(self.it, _OPS["floordiv"], a, b) if (isinstance(a, Sym) or isinstance(b, Sym)) else a // b
+    def mod(self, a, b): return M.binop(self.it, _OPS["mod"], a, b) if (isinstance(a, Sym) or isinstance(b, Sym)) else a % b
+    def lt(self, a, b): return M.order(self.it, _CMP["lt"], a, b)
+    def le(self, a, b): return M.order(self.it, _CMP["le"], a, b)
+    def gt(self, a, b): return M.order(self.it, _CMP["gt"], a, b)
+    def ge(self, a, b): return M.order(self.it, _CMP["ge"], a, b)
 
     def __init__(self, it, rec):
         self.it = it
@@ -331,6 +348,16 @@ def second_opinion(it, neg):
 
 class NatCtx(_CtxBase):
     """native context: real functions under CPython, concrete inputs"""
+
+    def add(self, a, b): return a + b
+    def sub(self, a, b): return a - b
+    def mul(self, a, b): return a * b
+    def floordiv(self, a, b): return a // b
+    def mod(self, a, b): return a % b
+    def lt(self, a, b): return a < b
+    def le(self, a, b): return a <= b
+    def gt(self, a, b): return a > b
+    def ge(self, a, b): return a >= b
 
     def __init__(self, inputs=None, rng=None):
         self.given = inputs
